@@ -194,30 +194,47 @@ func runC19(c *Ctx) {
 			return cc != nil && cc.IsInvoke() && cc.Method.Name() == "WriteMsg"
 		}
 		c.MustCross("C19-R3", wf, "delegate WriteMsg", delegate, CallBarrier("stripECS", stripECS), CallBarrier("ClearOPT", clearOPT))
-		c.MustCrossFrom("C19-R3", wf, "options of another OPT merged after stripECS", isPlainCallTo(stripECS), func(in ssa.Instruction) bool {
-			if !isFieldStore(in, optOption, nil) {
-				return false
-			}
-			st := in.(*ssa.Store)
-			if Contains(CallTo(stripECS))(Desc(st.Val)) {
-				return false
-			}
-			// allowed: re-reading the already stripped list of the SAME opt
-			base := Desc(st.Addr.(*ssa.FieldAddr).X).String()
-			foreign := false
-			Contains(func(x *Expr) bool {
-				if x.K == EField && x.Var == optOption && x.X.String() != base {
-					foreign = true
+		// the strip (and what follows it) may have been extracted into an unexported helper of WriteMsg
+		stripScope := []*ssa.Function{wf}
+		if len(instrsWhere(wf, isPlainCallTo(stripECS))) == 0 {
+			stripScope = nil
+			for _, g := range scopeFuncs(wf) {
+				if TopLevel(g) != wf && g.Parent() == nil && len(instrsWhere(g, isPlainCallTo(stripECS))) > 0 {
+					stripScope = append(stripScope, g)
 				}
-				return false
-			})(Desc(st.Val))
-			return foreign
-		})
+			}
+			if len(stripScope) == 0 {
+				stripScope = []*ssa.Function{wf}
+			}
+		}
+		for _, sfn := range stripScope {
+			c.MustCrossFrom("C19-R3", sfn, "options of another OPT merged after stripECS", isPlainCallTo(stripECS), func(in ssa.Instruction) bool {
+				if !isFieldStore(in, optOption, nil) {
+					return false
+				}
+				st := in.(*ssa.Store)
+				if Contains(CallTo(stripECS))(Desc(st.Val)) {
+					return false
+				}
+				// allowed: re-reading the already stripped list of the SAME opt
+				base := Desc(st.Addr.(*ssa.FieldAddr).X).String()
+				foreign := false
+				Contains(func(x *Expr) bool {
+					if x.K == EField && x.Var == optOption && x.X.String() != base {
+						foreign = true
+					}
+					return false
+				})(Desc(st.Val))
+				return foreign
+			})
+		}
 		// the result of stripECS is what gets stored
 		n := 0
-		for _, in := range instrsWhere(wf, func(in ssa.Instruction) bool { return isFieldStore(in, optOption, CallTo(stripECS)) }) {
-			n++
-			c.ok("C19-R3", "C19-R3|WriteMsg|opt.Option = stripECS(...)", instrPos(in), "strip result stored back")
+		for _, sfn := range stripScope {
+			for _, in := range instrsWhere(sfn, func(in ssa.Instruction) bool { return isFieldStore(in, optOption, CallTo(stripECS)) }) {
+				n++
+				c.ok("C19-R3", "C19-R3|WriteMsg|opt.Option = stripECS(...)", instrPos(in), "strip result stored back")
+			}
 		}
 		if n == 0 {
 			c.violation("C19-R3", "C19-R3|WriteMsg|opt.Option = stripECS(...)", wf.Pos(), "the result of stripECS is never stored into opt.Option")
